@@ -40,7 +40,7 @@ def scenarios(rng, tier):
                 h.frame(c, probe(mac(500 + 1000 * c + i), me, mac(500 + 1000 * c + i), me))
                 if not big and rng.random() < 0.5: h.frame(c, probe(mac(900 + i), other, mac(900 + i), other))
             if rng.random() < 0.5: h.lines.append('cfg %d mac=%s macfail=1' % (c, me.hex())); h.frame(c, probe(mac(950), me, mac(950), me)); h.lines.append('cfg %d mac=%s macfail=0' % (c, me.hex()))
-            h.frame(c, query(M, me, seq=5)); h.frame(c, query(M, me, seq=6))
+            for q_ in range(12 if big else 2): h.frame(c, query(M, me, seq=5 + q_))      # drained completely
             return h.lines
         h0, h1 = hist(0, m0, m1), hist(1, m1, m0)
         h2 = ['frame 2 00 ' + hx(discover(M, gen=1))]
@@ -59,7 +59,22 @@ def scenarios(rng, tier):
                 else:
                     mix.append(b.pop(0))
                     while b and (mix[-1].startswith('cfg') or (b[0].startswith('cfg') and 'macfail=0' in b[0])): mix.append(b.pop(0))
+            if big and j == 0:
+                # one interface's whole history while the other one is holding its full, unreported list
+                cut = next(i for i, l in enumerate(h0) if '88d90100000602' in l or l.split()[-1][34:36] == '06')
+                mix = h0[:cut] + h1 + h0[cut:]
             s.start('xaddr_%d~m%d' % (k, j)); s.lines += head + mix
+    # an interface whose address getter fails for a moment, exactly while ANOTHER interface is seen for the first time
+    for k in range(8 if tier == 'quick' else 100):
+        m0 = bytes([2, 0xA0, 0, 0, 1, k & 255]); head = [Cfg(0, mac=m0).line()]
+        pre = ['frame 0 00 ' + hx(discover(M, gen=1))] + ['frame 0 00 ' + hx(probe(mac(700 + i), m0, mac(700 + i), m0)) for i in range(3)] + ['frame 0 00 ' + hx(qlt(M, m0, 14, 0, seq=2))]
+        win_open = ['cfg 0 mac=%s macfail=1' % m0.hex()]; win_close = ['cfg 0 mac=%s macfail=0' % m0.hex()]
+        post = ['frame 0 00 ' + hx(query(M, m0, seq=3)), 'frame 0 00 ' + hx(discover(mac(2), gen=1)), 'frame 0 00 ' + hx(discover(M, gen=1))]
+        other = ['frame %d 00 %s' % (1 + k % 3, hx(discover(M, gen=1)))]
+        inside = ['frame 0 00 ' + hx(probe(mac(750), m0, mac(750), m0))] if k % 2 else []
+        s.start('regdrop_%d~a0' % k); s.lines += head + pre + win_open + inside + win_close + post
+        s.start('regdrop_%d~m0' % k); s.lines += head + pre + win_open + other + inside + win_close + post
+        s.start('regdrop_%d~m1' % k); s.lines += head + pre + win_open + inside + other + win_close + post
     return [(s.text(), {})]
 def project(blk, name, meta):
     if blk.fault: return ('fault',)
